@@ -47,7 +47,7 @@ BOUNDED_ONLY = {
     'C09': ['exactness on a complete manifold', 'time reversibility'],
     'C10': ['variational bounds', 'monotonicity', 'last energy equals the energy of the returned state', 'exact ground state on a complete manifold'],
     'C11': ['floating-point residuals of Q R = A and Q^H Q = I (the deductive proof is in exact arithmetic)'],
-    'C12': ['isometry of u and v', 'error identity ||A - u s v||^2 = sum of discarded s^2', 'tol = 0 reproduces A'],
+    'C12': ['error identity ||A - u s v||^2 = sum of discarded s^2', 'tol = 0 reproduces A', 'floating-point residuals of the isometry clauses'],
     'C13': ['scale in [sqrt(1 - L tol), 1]', 'error identity for compress', 'first truncated bond keeps the prescribed Schmidt values', 'from_vector error bound'],
     'C14': ['orthonormality of the Krylov vectors', 'projected map equals the tridiagonal / Hessenberg matrix', 'positivity of beta'],
     'C15': ['Ritz value bounds', 'norm preservation of the Hermitian exponential', 'exactness once the Krylov space is exhausted'],
